@@ -7,6 +7,9 @@ package main
 // exit 2: the machinery itself failed (load error, vacuous context, canary passing)
 
 import (
+	"go/ast"
+	"regexp"
+	"golang.org/x/tools/go/ssa"
 	"bufio"
 	"encoding/json"
 	"fmt"
@@ -212,6 +215,18 @@ func runCheck(prop, tier, repo string, overlay map[string][]byte, writeEvidence 
 			continue
 		}
 		if res.ContractErr != "" {
+			// a local named in a loop invariant may simply have been renamed: invariants are proof
+			// artefacts, so any local that makes the contract bind AND every obligation discharge is as
+			// good as the original one (the postconditions never mention locals)
+			if res2, alias := eng.rebindRenamedLocal(fn, k, res.ContractErr, opts, smtDir); res2 != nil {
+				out.results[len(out.results)-1] = res2
+				res2.Ctx.trusted["loop-invariant identifier of "+k+" rebound to a renamed local ("+alias+"); the invariants were re-proved with it"] = true
+				for _, o := range res2.Obligs {
+					o.res = res2
+				}
+				out.obligs = append(out.obligs, res2.Obligs...)
+				continue
+			}
 			bindFail(k, "contract does not bind: "+res.ContractErr)
 			continue
 		}
@@ -476,4 +491,68 @@ func crossCheck(obs []*Oblig, dir string, agree map[string]int) {
 			agree["second-solver-undecided"]++
 		}
 	}
+}
+
+var unknownIdentRe = regexp.MustCompile(`unknown identifier "([A-Za-z_][A-Za-z0-9_]*)" in contract of (.+)$`)
+
+// rebindRenamedLocal: the contract of fn does not bind because it names a local the function no longer
+// has. Try every source-level local of fn in its place; accept the first for which the contract binds and
+// all obligations discharge. Returns nil when there is none.
+func (e *Engine) rebindRenamedLocal(fn *ssa.Function, key, cerr string, opts VerifyOpts, smtDir string) (*FuncResult, string) {
+	m := unknownIdentRe.FindStringSubmatch(cerr)
+	if m == nil || m[2] != key {
+		return nil, ""
+	}
+	missing := m[1]
+	cands := map[string]bool{}
+	for _, b := range fn.Blocks {
+		for _, in := range b.Instrs {
+			switch x := in.(type) {
+			case *ssa.Alloc:
+				if x.Comment != "" && x.Comment != "varargs" && x.Comment != "complit" && !strings.Contains(x.Comment, " ") {
+					cands[x.Comment] = true
+				}
+			case *ssa.Phi:
+				if x.Comment != "" && x.Comment != "rangeindex" && !strings.Contains(x.Comment, " ") {
+					cands[x.Comment] = true
+				}
+			case *ssa.DebugRef:
+				if id, ok := x.Expr.(*ast.Ident); ok && !x.IsAddr {
+					cands[id.Name] = true
+				}
+			}
+		}
+	}
+	for _, p := range fn.Params {
+		delete(cands, p.Name())
+	}
+	var names []string
+	for c := range cands {
+		names = append(names, c)
+	}
+	sort.Strings(names)
+	if len(names) > 12 {
+		return nil, ""
+	}
+	defer func() { delete(e.identAlias, key) }()
+	for _, c := range names {
+		e.identAlias[key] = map[string]string{missing: c}
+		res := e.VerifyFunc(fn, opts)
+		if res.ContractErr != "" || res.Unsupported != "" || len(res.Obligs) == 0 {
+			continue
+		}
+		Discharge(res.Obligs, SolveOpts{TimeoutS: 10, Dir: smtDir, KeepFiles: true})
+		all := true
+		for _, o := range res.Obligs {
+			if o.Status != "proved" {
+				all = false
+			}
+		}
+		if all {
+			// the obligations are discharged again with the rest of the claim; keep the alias for that run
+			alias := missing + " -> " + c
+			return res, alias
+		}
+	}
+	return nil, ""
 }
